@@ -217,7 +217,20 @@ func runLayout(c *caseT, items []string, seed uint32, k int, rr bool, stdin []by
 	}
 	for _, mode := range []string{"count", "set"} {
 		prof := "prof." + mode
-		args := append(append([]string{}, fargs...), "-coverprofile", prof, "-covermode", mode)
+		// the two flags in either order and either spelling (the arrangement is a function of the case, so that
+		// every arrangement occurs and a case always gets the same one)
+		var flags []string
+		switch (len(show) + len(mode)) % 4 {
+		case 0:
+			flags = []string{"-coverprofile", prof, "-covermode", mode}
+		case 1:
+			flags = []string{"-covermode", mode, "-coverprofile", prof}
+		case 2:
+			flags = []string{"-covermode=" + mode, "-coverprofile=" + prof}
+		default:
+			flags = []string{"-coverprofile=" + prof, "-covermode=" + mode}
+		}
+		args := append(append([]string{}, fargs...), flags...)
 		cov := runCLI(dir, args, stdin)
 		if cov.hang {
 			return ret(hx.Fail("C18/hang/"+cls, "run with coverage does not terminate", nil, nil, show))
